@@ -429,6 +429,7 @@ func c04Run(t *testing.T, c *choice.Stream, r *Result, opt RunOpt, forced *c04Fo
 		if c.Bool("backpressure", 1, 4) {
 			conn.Window = c.Pick("window", 8, 64, 512) // the sender may be blocked inside Write when the fault lands
 		}
+		conn.CloseErr = c.Bool("close_err", 1, 4) // releasing the connection reports an error
 		r.Cell = fmt.Sprintf("%s/%s/comp%d", sc.kind, faultName, cf.Comp)
 		r.Sample = map[string]any{"kind": sc.kind, "fault": faultName, "client_rev": cf.ClientRev, "server_rev": cf.ServerRev, "compression": cf.Comp.String(),
 			"cols": colNames(sc.cols), "cut_k": cutK, "write_err_k": werrK, "fail_at": sc.rec.FailAt, "script": scriptLabels(script), "strategy": e.Sim.Strategy, "deliver": e.W.DeliverMode}
